@@ -49,23 +49,61 @@ def _case_job(job):
         # replay first, then the complete quantified query on both solvers.
         engine.discharge(obs, both=False, procs=1, fast=True)
         refuted = {}
-        left = set()
-        for k, ob in enumerate(obs):
-            if ob.verdict == 'DISCHARGED' or not getattr(ob, 'hyps_smt2', None):
+        left = []
+        cache = []
+        budget = float(os.environ.get('PYVC_CASE_BUDGET_S', '600' if both else '110'))
+        deadline = time.time() + budget
+        failing = [k for k, ob in enumerate(obs) if ob.verdict != 'DISCHARGED']
+        failing.sort(key=lambda k: (obs[k].kind != 'post', k))
+        for k in failing:
+            ob = obs[k]
+            if not getattr(ob, 'hyps_smt2', None) or getattr(ob, 'havoc_syms', None):
+                # no VC could be formed (unmodelled construct): only a failing input on the real code can decide it
+                if hasattr(c, 'native'):
+                    if not any(x[2] == 'random' for x in cache):
+                        for P, nat in refute.random_natives(c, case, n=int(os.environ.get('PYVC_RANDOM_REFUTE', '120')), seed=1):
+                            cache.append((P, nat, 'random'))
+                    for (P0, nat0, b0) in cache:
+                        hit, fl = refute.is_hit(ob.name, ob.kind, nat0, strict=True)
+                        if hit:
+                            refuted[k] = dict(status='reproduced', params=P0, native=nat0, bound=b0, failing=fl,
+                                              note='random small instance (the VC itself was not formed: ' + str(ob.undecided)[:80] + ')')
+                            break
+                if not getattr(ob, 'hyps_smt2', None):
+                    continue
+                if k in refuted:
+                    continue
+                left.append(k)
                 continue
-            if not getattr(ob, 'havoc_syms', None):
-                try:
-                    r = refute.try_refute(c, case, ob.name, ob.kind, ob.hyps_smt2, ob.goal_smt2)
-                except Exception as e:
-                    r = dict(status='error', note=f'{type(e).__name__}: {e}', trace=traceback.format_exc(limit=4))
+            if True:
+                remaining = deadline - time.time()
+                if remaining > 3:
+                    try:
+                        r = refute.try_refute(c, case, ob.name, ob.kind, ob.hyps_smt2, ob.goal_smt2, cache=cache,
+                                              budget_s=max(3, min(30, remaining / 2)))
+                    except Exception as e:
+                        r = dict(status='error', note=f'{type(e).__name__}: {e}', trace=traceback.format_exc(limit=4))
+                else:
+                    r = dict(status='skipped', note='time budget of the case exhausted')
+                    for (P0, nat0, b0) in cache:
+                        hit, fl = refute.is_hit(ob.name, ob.kind, nat0)
+                        if hit:
+                            r = dict(status='reproduced', params=P0, native=nat0, bound=b0, failing=fl, note='model shared')
+                            break
                 refuted[k] = r
                 if r.get('status') == 'reproduced':
                     continue
-            left.add(k)
-        if left:
-            for k in left:
-                obs[k].undecided = None
-            engine.discharge(obs, both=True, procs=1, only=left)
+            left.append(k)
+        # complete quantified query on both solvers for what is still open (hard wall-clock limits)
+        for k in left:
+            obs[k].undecided = None
+            remaining = deadline - time.time()
+            if remaining < 4:
+                obs[k].verdict, obs[k].backend = 'UNDECIDED', 'none'
+                obs[k].undecided = 'time budget of the case exhausted before the complete query'
+                continue
+            ms = int(max(3000, min(20000, remaining * 1000 / 3)))
+            engine.discharge(obs, both=True, procs=1, only={k}, z3_ms=ms, cvc5_ms=ms)
         if both:
             # thorough tier: every discharged query is cross-checked by the second solver as well
             dis = {k for k, ob in enumerate(obs) if ob.verdict == 'DISCHARGED' and k not in left and getattr(ob, 'hyps_smt2', None)}
